@@ -184,7 +184,8 @@ func (p *parser) parseBool(n *yaml.Node) *Bool {
 	}
 
 	return &Bool{
-		Value: n.Value == "true",
+		// YAML also spells the boolean "True" or "TRUE" (tagged !!bool as well)
+		Value: strings.EqualFold(n.Value, "true"),
 		Pos:   posAt(n),
 	}
 }
